@@ -648,6 +648,23 @@ func (w *c03World) op(files *[]p9.File) {
 				w.hof[nf] = h
 				*files = append(*files, nf)
 			}
+			if w.ver < 2 {
+				// below version 2 the client walks and then asks for the
+				// attributes itself: of the file it walked to
+				var last *simfs.Call
+				for _, cl := range calls() {
+					if cl.Method == "GetAttr" && cl.Err == nil {
+						last = cl
+					}
+				}
+				if h := w.hof[nf]; last != nil && h != nil {
+					if last.H != h {
+						w.find("wrong-file", "WalkGetAttr", "WalkGetAttr(%q) at version %d: the attributes were asked of handle %d (%s), the walk reached handle %d (%s)", names, w.ver, last.H.ID, last.H.Path(), h.ID, h.Path())
+					} else if v != last.RValid || a != last.RAttr {
+						w.find("wrong-result", "WalkGetAttr", "WalkGetAttr(%q) at version %d: the file returned (%v, %+v), the caller got (%v, %+v)", names, w.ver, last.RValid, last.RAttr, v, a)
+					}
+				}
+			}
 			c := w.call("WalkGetAttr", calls())
 			if c != nil && w.ver >= 2 && !w.fs.WalkGetAttrENOSYS && c.Err == nil && (v != sv || a != sa || len(qs) != 1) {
 				w.find("wrong-result", "WalkGetAttr", "backend returned (%v, %+v), caller got (%v, %+v), %d QIDs", sv, sa, v, a, len(qs))
